@@ -209,3 +209,14 @@ func init() {
 		NonTrivial: func(fp string) bool { return strings.HasPrefix(fp, "teardown/") },
 	}
 }
+
+func init() {
+	metaTable["C17"] = propMeta{Level: "exploration", Assumptions: []string{
+		"generators and handlers read time.Now inside a testing/synctest bubble; the boundary is the Unix second stamped in the username (valid while now <= expiry)",
+		"oracle = own HMAC-SHA1 / MD5 computation; go1.26.8 -race build of /repo's working tree",
+	},
+		Rule: "9 of 10 cases: (generator/handler pair in {long-term, TURN REST}) x secret x user name x realm x duration in {-1h,-1s,0,1s,5s,1min,1d} at a PRNG-chosen clock instant; the handler is called at every second of [expiry-5 s, expiry+5 s] plus +1 h and +400 d, each time checking ok == (now <= expiry), key == MD5(username:realm:HMAC password), user id, MESSAGE-INTEGRITY of a message signed with the issued / a mutated / another-secret / another-username password, 6 single-character username mutations, 9 malformed timestamps and the cross-format pairing; " +
+			"1 of 10: Allocate with a real client through a real server 2 s before and just after expiry; non-trivial = distinct (pair, duration, validity, offset) fingerprints",
+		NonTrivial: func(fp string) bool { return true },
+	}
+}
